@@ -38,6 +38,17 @@ class H(Function):
         return o
 
 
+class Boom(Function):
+    """fails when told to (for runs that must leave a recovery file)"""
+
+    @staticmethod
+    def node_function(a=0):
+        if a:
+            raise RuntimeError("boom")
+        o = a
+        return o
+
+
 class WfSub(Workflow):
     """a subclass of Workflow"""
 
@@ -68,6 +79,25 @@ def make_sub(cls):
         pass
 
     return OpSub
+
+
+def custom_backends():
+    """user-defined back ends (subclasses of the library's): `MyStorage` inherits all hooks; `NoHookStorage` writes the
+    same temporaries but keeps the interface's default `_has_leftovers` (always False)"""
+    if "be" not in _CACHE:
+        from pyiron_workflow.storage import PickleStorage, StorageInterface
+
+        class MyStorage(PickleStorage):
+            pass
+
+        class NoHookStorage(PickleStorage):
+            pass
+
+        if hasattr(StorageInterface, "_has_leftovers"):  # (a tree from before the hook existed has nothing to keep)
+            NoHookStorage._has_leftovers = StorageInterface._has_leftovers
+
+        _CACHE["be"] = {"custom": MyStorage, "nohook": NoHookStorage}
+    return _CACHE["be"]
 
 
 _CACHE: dict = {}
